@@ -39,6 +39,11 @@ def cases(ctx):
         ep, en = gen.easy(rng)
         sc, ec = gen.cfg(rng)
         grouped = bool(rng.random() < 0.25)
+        if not grouped and rng.random() < 0.08:  # an object without any sample of one class: rates of that class are NaN of the threshold's shape
+            if rng.random() < 0.5:
+                pos, ep = pos[:0], 0
+            else:
+                neg, en = neg[:0], 0
         yield {"pos": pos, "neg": neg, "ep": 0 if grouped else ep, "en": 0 if grouped else en, "sc": sc, "ec": ec, "kind": kind, "grouped": grouped,
                "L": int(rng.integers(20, 51)), "_seed": int(rng.integers(1 << 31)),
                "pw_big": [(300, 300), (1000, 70), (129, 509)][i] if i < 3 else None}  # three large pointwise problems per run (beyond 2**16 pairs, sizes that divide nothing)
@@ -119,6 +124,8 @@ def execute(ctx, case):
         return (name, type(x).__name__, xa.shape, xa.tobytes(), extra)
 
     ops = ["rate", "rate", "thr", "thr", "cm", "eer", "auc", "swap", "boot", "tam"] + (["grate", "gcm", "getitem"] if case["grouped"] else [])
+    if len(pos) == 0 or len(neg) == 0:
+        ops = ["rate", "rate", "rate", "cm", "swap"]  # everything else needs both classes
     for step in range(case["L"]):
         op = str(rng.choice(ops))
         if op == "rate":
